@@ -415,6 +415,12 @@ class SplineSetEvaluator(FuncEvaluator, XCEvalSerializable):
         assert len(coeff_sets) == self.nterms
         self.coeff_sets = coeff_sets
         self.const = const
+        for ind_set, grid, coeffs in zip(ind_sets, spline_grids, coeff_sets):
+            # the compiled spline routines do not check bounds themselves
+            if not (1 <= len(ind_set) <= 4) or len(grid) != len(ind_set):
+                raise ValueError("Spline grid and index set must have 1-4 dimensions")
+            if np.shape(coeffs) != tuple(int(dim[2]) + 2 for dim in grid):
+                raise ValueError("Spline coefficients do not match the spline grid")
 
     def __call__(self, X1, res=None, dres=None):
         """
